@@ -33,7 +33,7 @@ Definition zset_eqb (a b : list Z) : bool :=
 
 (** the pid handed to handle is not a tracee: both fallible interactions fail *)
 Definition handle_ok (c : handle_case) : bool :=
-  let o := handle {| h_execved := hc_execved c; h_traced := hc_traced c |} (hc_pgid c) (hc_pid c) (hc_w c) false false in
+  let o := handle {| h_execved := hc_execved c; h_traced := hc_traced c |} (hc_pgid c) (hc_pid c) (hc_w c) SoGone TrGone in
   (code_of {| r_status := o_status o; r_exit := o_exit o; r_err := o_err o |} =? hc_code c) &&
   Bool.eqb (o_finished o) (hc_finished c) && Bool.eqb (h_execved (o_state o)) (hc_execved' c) &&
   zset_eqb (h_traced (o_state o)) (hc_traced' c).
@@ -53,10 +53,10 @@ Definition traced_main := {| h_execved := true; h_traced := [1%Z] |}.
 
 Definition ptrace_run (is_exit via_stop : bool) (v : N) (core : bool) : option result :=
   let death := if is_exit then ws_of_exit v else ws_of_signal v core in
-  let die st := match fst (trace_step st 1%Z 1%Z death 0%Z 1%Z 0 1 true true) with
+  let die st := match fst (trace_step st 1%Z 1%Z death 0%Z 1%Z 0 1 SoOk TrOk) with
                 | inl r => Some r | inr _ => None end in
   if negb is_exit && via_stop then
-    match trace_step traced_main 1%Z 1%Z (0x7F + N.shiftl v 8) 0%Z 1%Z 0 1 true true with
+    match trace_step traced_main 1%Z 1%Z (0x7F + N.shiftl v 8) 0%Z 1%Z 0 1 SoOk TrOk with
     | (inl r, _) => Some r
     | (inr st, [ReqCont s]) => if Z.eqb s (Z.of_N v) then die st else None   (* not delivered: the program goes on *)
     | _ => None
